@@ -4,11 +4,13 @@ package main
 // D27–D30 reproduced from the agents' observations on the unmodified tree.
 
 import (
+	"fmt"
 	"go/ast"
 	"go/token"
 	"go/types"
 	"regexp"
 	"regexp/syntax"
+	"sort"
 	"strings"
 
 	"golang.org/x/tools/go/cfg"
@@ -46,19 +48,29 @@ func checkHasValidity(c *Ctx, rule string) {
 				}
 				return info.ObjectOf(id)
 			}
-			ast.Inspect(fi.Decl.Body, func(m ast.Node) bool {
-				as, ok := m.(*ast.AssignStmt)
-				if !ok || len(as.Lhs) != len(as.Rhs) {
-					return true
+			bind := func(lhs ast.Expr, rhs ast.Expr) {
+				call, ok := ast.Unparen(rhs).(*ast.CallExpr)
+				if !ok {
+					return
 				}
-				for i, r := range as.Rhs {
-					call, ok := ast.Unparen(r).(*ast.CallExpr)
-					if !ok {
-						continue
+				if t := hasTarget(call); t != nil {
+					if id, ok := lhs.(*ast.Ident); ok && info.ObjectOf(id) != nil {
+						target[info.ObjectOf(id)] = t
 					}
-					if t := hasTarget(call); t != nil {
-						if id, ok := as.Lhs[i].(*ast.Ident); ok && info.ObjectOf(id) != nil {
-							target[info.ObjectOf(id)] = t
+				}
+			}
+			ast.Inspect(fi.Decl.Body, func(m ast.Node) bool {
+				switch x := m.(type) {
+				case *ast.AssignStmt:
+					if len(x.Lhs) == len(x.Rhs) {
+						for i := range x.Rhs {
+							bind(x.Lhs[i], x.Rhs[i])
+						}
+					}
+				case *ast.ValueSpec:
+					if len(x.Names) == len(x.Values) {
+						for i := range x.Values {
+							bind(x.Names[i], x.Values[i])
 						}
 					}
 				}
@@ -67,6 +79,7 @@ func checkHasValidity(c *Ctx, rule string) {
 			if len(target) == 0 {
 				return
 			}
+			checkConjunctions(c, fi, target)
 			// invalid targets implied by a condition taken with the given value
 			invalid := func(cond ast.Expr, edge bool) map[types.Object]bool {
 				out := map[types.Object]bool{}
@@ -163,6 +176,194 @@ func checkHasValidity(c *Ctx, rule string) {
 	}
 	if n < 3 {
 		c.Unresolved(rule, "branches decided by a negative sqlx.Has result in the differ files (fewer than 3)")
+	}
+}
+
+// R02q: a field of a sqlx.Has target is read only where its flag is known true.
+// The context of a read is collected from the enclosing short-circuit operators,
+// if statements and (ordered) tagless switch cases, and decided by enumerating
+// the truth assignments of the function's Has flags (other atoms are unknown).
+func checkConjunctions(c *Ctx, fi *FuncInfo, target map[types.Object]types.Object) {
+	info := fi.Info()
+	flagOf := map[types.Object]types.Object{} // target -> flag
+	var flags []types.Object
+	for f, t := range target {
+		flagOf[t] = f
+		flags = append(flags, f)
+	}
+	if len(flags) > 10 {
+		c.Unresolved("R02q", fi.Name+": more than 10 sqlx.Has flags")
+		return
+	}
+	idx := map[types.Object]int{}
+	for i, f := range flags {
+		idx[f] = i
+	}
+	type constraint struct {
+		e   ast.Expr
+		val bool
+	}
+	// three-valued evaluation: 1 true, 0 false, -1 unknown
+	var eval func(e ast.Expr, asg int) int
+	eval = func(e ast.Expr, asg int) int {
+		switch x := ast.Unparen(e).(type) {
+		case *ast.Ident:
+			if i, ok := idx[info.ObjectOf(x)]; ok {
+				if asg&(1<<i) != 0 {
+					return 1
+				}
+				return 0
+			}
+		case *ast.UnaryExpr:
+			if x.Op == token.NOT {
+				switch eval(x.X, asg) {
+				case 1:
+					return 0
+				case 0:
+					return 1
+				}
+			}
+		case *ast.BinaryExpr:
+			a, b := eval(x.X, asg), eval(x.Y, asg)
+			switch x.Op {
+			case token.LAND:
+				if a == 0 || b == 0 {
+					return 0
+				}
+				if a == 1 && b == 1 {
+					return 1
+				}
+			case token.LOR:
+				if a == 1 || b == 1 {
+					return 1
+				}
+				if a == 0 && b == 0 {
+					return 0
+				}
+			case token.EQL, token.NEQ:
+				if a >= 0 && b >= 0 {
+					if (a == b) == (x.Op == token.EQL) {
+						return 1
+					}
+					return 0
+				}
+			}
+		}
+		return -1
+	}
+	pm := parentMap(fi.Decl.Body)
+	contextOf := func(n ast.Node) []constraint {
+		var cs []constraint
+		child := n
+		for p := pm[n]; p != nil; child, p = p, pm[p] {
+			switch x := p.(type) {
+			case *ast.BinaryExpr:
+				if child == ast.Node(x.Y) || (x.Y.Pos() <= child.Pos() && child.End() <= x.Y.End()) {
+					switch x.Op {
+					case token.LAND:
+						cs = append(cs, constraint{x.X, true})
+					case token.LOR:
+						cs = append(cs, constraint{x.X, false})
+					}
+				}
+			case *ast.IfStmt:
+				switch {
+				case x.Body.Pos() <= child.Pos() && child.End() <= x.Body.End():
+					cs = append(cs, constraint{x.Cond, true})
+				case x.Else != nil && x.Else.Pos() <= child.Pos() && child.End() <= x.Else.End():
+					cs = append(cs, constraint{x.Cond, false})
+				}
+			case *ast.CaseClause:
+				sw, ok := pm[pm[x]].(*ast.SwitchStmt)
+				if !ok || sw.Tag != nil {
+					continue
+				}
+				for _, cl := range sw.Body.List {
+					cc := cl.(*ast.CaseClause)
+					if cc == x {
+						break
+					}
+					for _, e := range cc.List {
+						cs = append(cs, constraint{e, false})
+					}
+				}
+				inList := false
+				for k, e := range x.List {
+					if e.Pos() <= child.Pos() && child.End() <= e.End() {
+						inList = true
+						for _, prev := range x.List[:k] {
+							cs = append(cs, constraint{prev, false})
+						}
+					}
+				}
+				if !inList && len(x.List) == 1 {
+					cs = append(cs, constraint{x.List[0], true})
+				}
+			case *ast.FuncLit:
+				return cs
+			}
+		}
+		return cs
+	}
+	guardedSomewhere := map[types.Object]bool{}
+	type site struct {
+		se *ast.SelectorExpr
+		t  types.Object
+		ok bool
+	}
+	var sites []site
+	ast.Inspect(fi.Decl.Body, func(m ast.Node) bool {
+		se, ok := m.(*ast.SelectorExpr)
+		if !ok {
+			return true
+		}
+		id, ok := ast.Unparen(se.X).(*ast.Ident)
+		if !ok {
+			return true
+		}
+		t := info.ObjectOf(id)
+		fl, isTarget := flagOf[t]
+		if !isTarget {
+			return true
+		}
+		if _, isField := info.Selections[se]; !isField {
+			return true
+		}
+		cs := contextOf(se)
+		valid := true
+		for asg := 0; asg < 1<<len(flags); asg++ {
+			if asg&(1<<idx[fl]) != 0 {
+				continue // flag true
+			}
+			feasible := true
+			for _, k := range cs {
+				v := eval(k.e, asg)
+				if (v == 1 && !k.val) || (v == 0 && k.val) {
+					feasible = false
+					break
+				}
+			}
+			if feasible {
+				valid = false
+				break
+			}
+		}
+		if valid {
+			guardedSomewhere[t] = true
+		}
+		sites = append(sites, site{se, t, valid})
+		return true
+	})
+	occ := map[string]int{}
+	for _, st := range sites {
+		// a belief is contradicted only where the same function guards another read of the same value
+		if !guardedSomewhere[st.t] {
+			continue
+		}
+		c.funcs[fi.Name] = true
+		txt := types.ExprString(st.se)
+		occ[txt]++
+		c.Check("R02q", fmt.Sprintf("%s|read %d of %s", fi.Name, occ[txt], txt), st.se.Pos(), st.ok, "%s reads %s where the sqlx.Has result for it is not known to be true, although other reads of the same value in this function are guarded by it: when the attribute is absent the comparison is made with the zero value (typically a copy/paste of a neighbouring disjunct)", fi.Name, types.ExprString(st.se))
 	}
 }
 
@@ -730,5 +931,523 @@ func checkLikeEscape(c *Ctx, rule string) {
 	}
 	if n == 0 {
 		c.Note("%s: no LIKE pattern in the string constants of sql/sqlite (vacuous)", rule)
+	}
+}
+
+// R03o: the reader's AUTOINCREMENT pattern accepts every clause shape the writer emits.
+const ruleTextAutoincShapes = "writer/reader agreement for AUTOINCREMENT: every token sequence the SQLite planner's column writer can emit on a CFG path that ends with its `… AUTOINCREMENT` write (identifier, type, NULL/NOT NULL, optional DEFAULT, PRIMARY KEY AUTOINCREMENT — enumerated from the Builder calls of (*state).column) is matched by the inspector's reAutoinc pattern (a constant of the source); otherwise a table created by Atlas is read back without its AUTOINCREMENT and both exports lose it"
+
+func checkAutoincShapes(c *Ctx, rule string) {
+	w := c.Func(rule, pSqlite, "state", "column")
+	if w == nil {
+		return
+	}
+	// the reader pattern: package-level var reAutoinc = regexp.MustCompile(<const>)
+	var pattern string
+	p := c.Pkg(pSqlite)
+	for _, f := range p.Syntax {
+		ast.Inspect(f, func(m ast.Node) bool {
+			vs, ok := m.(*ast.ValueSpec)
+			if !ok {
+				return true
+			}
+			for i, nm := range vs.Names {
+				if nm.Name != "reAutoinc" || i >= len(vs.Values) {
+					continue
+				}
+				if call, ok := vs.Values[i].(*ast.CallExpr); ok && len(call.Args) == 1 {
+					if s, ok := stringConst(p.TypesInfo, call.Args[0]); ok {
+						pattern = s
+					}
+				}
+			}
+			return true
+		})
+	}
+	if pattern == "" {
+		c.Unresolved(rule, "var reAutoinc (constant pattern)")
+		return
+	}
+	re, err := regexp.Compile(pattern)
+	if err != nil {
+		c.Unresolved(rule, "reAutoinc does not compile: "+err.Error())
+		return
+	}
+	info := w.Info()
+	f := newFlow(info, w.Decl.Body)
+	// tokens written by one CFG node, in evaluation order
+	tokensOf := func(n ast.Node) (toks []string, final bool) {
+		var calls []*ast.CallExpr
+		ast.Inspect(n, func(m ast.Node) bool {
+			if _, ok := m.(*ast.FuncLit); ok {
+				return false
+			}
+			if call, ok := m.(*ast.CallExpr); ok {
+				if fn := calleeOf(info, call); fn != nil && recvTypeName(fn) == "Builder" {
+					calls = append(calls, call)
+				}
+			}
+			return true
+		})
+		// ast.Inspect visits the outermost call of a chain first: reverse for evaluation order
+		for i := len(calls) - 1; i >= 0; i-- {
+			call := calls[i]
+			switch calleeOf(info, call).Name() {
+			case "Ident":
+				toks = append(toks, "`c`")
+			case "P":
+				for _, a := range call.Args {
+					if s, ok := stringConst(info, a); ok {
+						toks = append(toks, s)
+						if strings.Contains(strings.ToUpper(s), "AUTOINCREMENT") {
+							final = true
+						}
+						continue
+					}
+					// the formatted type of an AUTOINCREMENT column is integer; anything else is a value
+					if id, ok := ast.Unparen(a).(*ast.Ident); ok && id.Name == "t" {
+						toks = append(toks, "integer")
+					} else {
+						toks = append(toks, "1")
+					}
+				}
+			}
+		}
+		return toks, final
+	}
+	var shapes []string
+	seenShape := map[string]bool{}
+	var walk func(b *cfg.Block, toks []string, onPath map[*cfg.Block]bool)
+	walk = func(b *cfg.Block, toks []string, onPath map[*cfg.Block]bool) {
+		if onPath[b] || len(shapes) > 64 {
+			return
+		}
+		onPath[b] = true
+		defer delete(onPath, b)
+		for _, n := range b.Nodes {
+			t, final := tokensOf(n)
+			toks = append(toks, t...)
+			if final {
+				s := strings.Join(toks, " ")
+				if !seenShape[s] {
+					seenShape[s] = true
+					shapes = append(shapes, s)
+				}
+				return
+			}
+			if isReturn(n) {
+				return
+			}
+		}
+		for _, s := range b.Succs {
+			walk(s, append([]string(nil), toks...), onPath)
+		}
+	}
+	walk(f.G.Blocks[0], nil, map[*cfg.Block]bool{})
+	if len(shapes) < 2 {
+		c.Unresolved(rule, "clause shapes of (*state).column ending in AUTOINCREMENT (fewer than 2 paths found)")
+		return
+	}
+	c.funcs[w.Name] = true
+	sort.Strings(shapes)
+	for _, s := range shapes {
+		doc := "CREATE TABLE `t` (" + s + ", `x` int NULL)"
+		c.Check(rule, "sqlite.reAutoinc accepts |"+s, w.Decl.Pos(), re.MatchString(doc), "the inspector's reAutoinc pattern does not match the column clause %q that sqlite.(state).column emits: a table created by Atlas with that clause is inspected without AUTOINCREMENT, so the HCL and SQL exports describe a different table", s)
+	}
+}
+
+// R03p: independent spec attributes are applied independently.
+const ruleTextExclusiveArms = "independent attributes are applied independently: in the spec→schema converters (convert* functions of the dialects' sqlspec files) the arms of one tagless switch or if/else-if chain are not decided by values read from different attribute keys while each arm adds an attribute to the object; with such a chain only the first matching key is applied, and a resource carrying both (e.g. WITHOUT ROWID and STRICT) loses the other on evaluation"
+
+func checkExclusiveArms(c *Ctx, rule string) {
+	n := 0
+	for _, pp := range []string{pSqlite, pMysql, pPostgres} {
+		c.AllFuncs(false, func(fi *FuncInfo) {
+			if fi.Pkg.PkgPath != pp || !strings.HasPrefix(fi.Decl.Name.Name, "convert") {
+				return
+			}
+			base := c.Fset.Position(fi.Decl.Pos()).Filename
+			base = base[strings.LastIndex(base, "/")+1:]
+			if !strings.HasPrefix(base, "sqlspec") {
+				return
+			}
+			info := fi.Info()
+			// variable -> attribute keys its value was read from
+			keys := map[types.Object]map[string]bool{}
+			add := func(o types.Object, ks map[string]bool) bool {
+				if o == nil || len(ks) == 0 {
+					return false
+				}
+				ch := false
+				if keys[o] == nil {
+					keys[o] = map[string]bool{}
+				}
+				for k := range ks {
+					if !keys[o][k] {
+						keys[o][k] = true
+						ch = true
+					}
+				}
+				return ch
+			}
+			var keysOf func(e ast.Expr) map[string]bool
+			keysOf = func(e ast.Expr) map[string]bool {
+				out := map[string]bool{}
+				ast.Inspect(e, func(m ast.Node) bool {
+					switch x := m.(type) {
+					case *ast.FuncLit:
+						return false
+					case *ast.Ident:
+						for k := range keys[info.ObjectOf(x)] {
+							out[k] = true
+						}
+					case *ast.CallExpr:
+						fn := calleeOf(info, x)
+						if fn == nil {
+							return true
+						}
+						// spec.Attr("k") or a package-local helper handed a constant key
+						isAttr := fn.Name() == "Attr" && fn.Pkg() != nil && fn.Pkg().Path() == pHCL
+						local := fn.Pkg() != nil && fn.Pkg().Path() == fi.Pkg.PkgPath
+						if isAttr || local {
+							for _, a := range x.Args {
+								if s, ok := stringConst(info, a); ok && s != "" {
+									out[s] = true
+								}
+							}
+						}
+					}
+					return true
+				})
+				return out
+			}
+			for changed := true; changed; {
+				changed = false
+				ast.Inspect(fi.Decl.Body, func(m ast.Node) bool {
+					as, ok := m.(*ast.AssignStmt)
+					if !ok {
+						return true
+					}
+					if len(as.Rhs) == 1 {
+						ks := keysOf(as.Rhs[0])
+						for _, l := range as.Lhs {
+							if id, ok := l.(*ast.Ident); ok && id.Name != "_" && id.Name != "err" {
+								if add(info.ObjectOf(id), ks) {
+									changed = true
+								}
+							}
+						}
+					}
+					return true
+				})
+			}
+			addsAttr := func(stmts []ast.Stmt) bool {
+				hit := false
+				for _, st := range stmts {
+					ast.Inspect(st, func(m ast.Node) bool {
+						call, ok := m.(*ast.CallExpr)
+						if !ok {
+							return true
+						}
+						if fn := calleeOf(info, call); fn != nil && (fn.Name() == "AddAttrs" || fn.Name() == "SetComment" || fn.Name() == "SetCharset" || fn.Name() == "SetCollation") {
+							hit = true
+						}
+						if builtinName(info, call) == "append" && len(call.Args) > 0 && strings.HasSuffix(types.ExprString(call.Args[0]), ".Attrs") {
+							hit = true
+						}
+						return true
+					})
+				}
+				return hit
+			}
+			type arm struct {
+				cond ast.Expr
+				body []ast.Stmt
+			}
+			judge := func(arms []arm, pos token.Pos, what string) {
+				if len(arms) < 2 {
+					return
+				}
+				n++
+				c.funcs[fi.Name] = true
+				bad := ""
+				for i := 0; i < len(arms) && bad == ""; i++ {
+					for j := i + 1; j < len(arms) && bad == ""; j++ {
+						if arms[i].cond == nil || arms[j].cond == nil || !addsAttr(arms[i].body) || !addsAttr(arms[j].body) {
+							continue
+						}
+						ki, kj := keysOf(arms[i].cond), keysOf(arms[j].cond)
+						if len(ki) == 0 || len(kj) == 0 {
+							continue
+						}
+						disjoint := true
+						for k := range ki {
+							if kj[k] {
+								disjoint = false
+							}
+						}
+						if disjoint {
+							bad = "`" + types.ExprString(arms[i].cond) + "` and `" + types.ExprString(arms[j].cond) + "`"
+						}
+					}
+				}
+				c.Check(rule, fi.Name+"|"+what, pos, bad == "", "%s applies attributes read from different keys in mutually exclusive arms (%s): when both keys are set only the first is applied and the other attribute is lost when the HCL is evaluated", fi.Name, bad)
+			}
+			k := 0
+			ast.Inspect(fi.Decl.Body, func(m ast.Node) bool {
+				switch x := m.(type) {
+				case *ast.SwitchStmt:
+					if x.Tag != nil {
+						return true
+					}
+					var arms []arm
+					for _, cl := range x.Body.List {
+						cc := cl.(*ast.CaseClause)
+						if len(cc.List) == 1 {
+							arms = append(arms, arm{cc.List[0], cc.Body})
+						}
+					}
+					k++
+					judge(arms, x.Pos(), fmt.Sprintf("switch %d", k))
+				case *ast.IfStmt:
+					if _, isElseOf := x.Else.(*ast.IfStmt); !isElseOf {
+						return true
+					}
+					var arms []arm
+					for cur := x; cur != nil; {
+						arms = append(arms, arm{cur.Cond, cur.Body.List})
+						next, _ := cur.Else.(*ast.IfStmt)
+						cur = next
+					}
+					k++
+					judge(arms, x.Pos(), fmt.Sprintf("if-chain %d", k))
+				}
+				return true
+			})
+		})
+	}
+	if n == 0 {
+		c.Note("%s: no tagless switch or if/else-if chain in the converters (vacuous)", rule)
+	}
+}
+
+// R04j: a change is skipped as implied only by a dropped column of its own table.
+const ruleTextOwnDroppedColumns = "skipAutoChanges (MySQL, PostgreSQL): the set of dropped column names belongs to the table being modified, so only columns of that same table (Index.Parts[i].C, ForeignKey.Columns) are looked up in it; a lookup with a column of another table (anything reached through ForeignKey.RefColumns / RefTable) can match by name alone and withhold a DropForeignKey that the engine does not perform implicitly — the referenced table is then dropped while the constraint still exists"
+
+func checkOwnDroppedColumns(c *Ctx, rule string) {
+	n := 0
+	for _, pp := range []string{pMysql, pPostgres} {
+		fi := c.LookupFunc(pp, "", "skipAutoChanges")
+		if fi == nil || fi.Decl.Body == nil {
+			continue
+		}
+		info := fi.Info()
+		// maps of dropped column names: map[string]bool locals indexed-assigned under a DropColumn assertion
+		sets := map[types.Object]bool{}
+		ast.Inspect(fi.Decl.Body, func(m ast.Node) bool {
+			as, ok := m.(*ast.AssignStmt)
+			if !ok || len(as.Lhs) != 1 {
+				return true
+			}
+			ix, ok := as.Lhs[0].(*ast.IndexExpr)
+			if !ok {
+				return true
+			}
+			if id, ok := ast.Unparen(ix.X).(*ast.Ident); ok {
+				if _, isMap := info.TypeOf(id).Underlying().(*types.Map); isMap {
+					sets[info.ObjectOf(id)] = true
+				}
+			}
+			return true
+		})
+		if len(sets) == 0 {
+			c.Unresolved(rule, fi.Name+": set of dropped column names")
+			continue
+		}
+		// variables that hold columns of another table
+		foreign := map[types.Object]bool{}
+		mentionsForeign := func(e ast.Expr) bool {
+			hit := false
+			ast.Inspect(e, func(m ast.Node) bool {
+				switch x := m.(type) {
+				case *ast.SelectorExpr:
+					if x.Sel.Name == "RefColumns" || x.Sel.Name == "RefTable" {
+						hit = true
+					}
+				case *ast.Ident:
+					if foreign[info.ObjectOf(x)] {
+						hit = true
+					}
+				}
+				return !hit
+			})
+			return hit
+		}
+		for changed := true; changed; {
+			changed = false
+			ast.Inspect(fi.Decl.Body, func(m ast.Node) bool {
+				switch x := m.(type) {
+				case *ast.RangeStmt:
+					if mentionsForeign(x.X) {
+						for _, v := range []ast.Expr{x.Key, x.Value} {
+							if id, ok := v.(*ast.Ident); ok && id.Name != "_" && !foreign[info.ObjectOf(id)] {
+								foreign[info.ObjectOf(id)] = true
+								changed = true
+							}
+						}
+					}
+				case *ast.AssignStmt:
+					if len(x.Lhs) == len(x.Rhs) {
+						for i, l := range x.Lhs {
+							if id, ok := l.(*ast.Ident); ok && mentionsForeign(x.Rhs[i]) && !foreign[info.ObjectOf(id)] {
+								foreign[info.ObjectOf(id)] = true
+								changed = true
+							}
+						}
+					}
+				}
+				return true
+			})
+		}
+		k := 0
+		ast.Inspect(fi.Decl.Body, func(m ast.Node) bool {
+			ix, ok := m.(*ast.IndexExpr)
+			if !ok {
+				return true
+			}
+			id, ok := ast.Unparen(ix.X).(*ast.Ident)
+			if !ok || !sets[info.ObjectOf(id)] {
+				return true
+			}
+			// skip the population site (assignment target)
+			k++
+			n++
+			c.funcs[fi.Name] = true
+			c.Check(rule, fmt.Sprintf("%s|lookup %d in %s", fi.Name, k, id.Name), ix.Pos(), !mentionsForeign(ix.Index), "%s looks up %s, a column of another table, in the set of columns dropped from the table being modified: a name coincidence withholds the DROP CONSTRAINT of a foreign key whose own columns stay, and the referenced table is dropped while the key still points at it", fi.Name, types.ExprString(ix.Index))
+			return true
+		})
+	}
+	if n < 4 {
+		c.Unresolved(rule, "lookups in the dropped-column sets of skipAutoChanges (fewer than 4)")
+	}
+}
+
+// R04k: sorting by a coarse key is stable.
+const ruleTextStableCoarseSort = "order-preserving sorts: in the planners, a sort whose comparator compares only the results of a classification function (the same module-local function returning an integer applied to both elements, e.g. priority(x)) is a stable sort (sort.SliceStable / sort.Stable / slices.SortStableFunc): elements of equal class must keep the dependency order computed before (the TiDB planner has no later SortChanges pass)"
+
+func checkStableCoarseSort(c *Ctx, rule string) {
+	n := 0
+	for _, pp := range []string{pSqlx, pMysql, pPostgres, pSqlite} {
+		c.AllFuncs(false, func(fi *FuncInfo) {
+			if fi.Pkg.PkgPath != pp {
+				return
+			}
+			info := fi.Info()
+			ast.Inspect(fi.Decl.Body, func(m ast.Node) bool {
+				call, ok := m.(*ast.CallExpr)
+				if !ok {
+					return true
+				}
+				fn := calleeOf(info, call)
+				if fn == nil || fn.Pkg() == nil || (fn.Pkg().Path() != "sort" && fn.Pkg().Path() != "slices") {
+					return true
+				}
+				var stable bool
+				switch fn.Name() {
+				case "SliceStable", "Stable", "SortStableFunc":
+					stable = true
+				case "Slice", "Sort", "SortFunc":
+				default:
+					return true
+				}
+				var lit *ast.FuncLit
+				for _, a := range call.Args {
+					if fl, ok := a.(*ast.FuncLit); ok {
+						lit = fl
+					}
+				}
+				if lit == nil {
+					return true
+				}
+				// the classification calls in the comparator
+				var cls []*types.Func
+				other := false
+				ast.Inspect(lit.Body, func(k ast.Node) bool {
+					switch x := k.(type) {
+					case *ast.CallExpr:
+						g := calleeOf(info, x)
+						if g != nil && g.Pkg() != nil && strings.HasPrefix(g.Pkg().Path(), modRoot) {
+							if b, ok := g.Type().(*types.Signature).Results().At(0).Type().Underlying().(*types.Basic); ok && b.Info()&types.IsInteger != 0 {
+								cls = append(cls, g)
+								return false
+							}
+						}
+					case *ast.SelectorExpr:
+						if _, isField := info.Selections[x]; isField {
+							other = true // compares a field (a name): not a pure class comparison
+						}
+					}
+					return true
+				})
+				if len(cls) != 2 || cls[0] != cls[1] || other {
+					return true
+				}
+				n++
+				c.funcs[fi.Name] = true
+				c.Check(rule, fi.Name+"|sort by "+cls[0].Name()+" is stable", call.Pos(), stable, "%s sorts by %s(...) alone with %s.%s, which does not keep the order of elements of equal class: the dependency order established before the sort (tables created before the tables that reference them) is lost", fi.Name, cls[0].Name(), fn.Pkg().Name(), fn.Name())
+				return true
+			})
+		})
+	}
+	if n < 1 {
+		c.Unresolved(rule, "sorts by a classification function in the planners (none found)")
+	}
+}
+
+// R05i: every registration of the SQLite driver wires the FK-aware transaction opener.
+const ruleTextTxOpenerRegistered = "registry completeness: every sqlclient.Register call of sql/sqlite (each URL scheme the driver answers to: sqlite, libsql, …) passes sqlclient.RegisterTxOpener(OpenTx); without it sqlclient falls back to a plain BeginTx, PRAGMA foreign_keys = off becomes a no-op inside the transaction, and the DROP TABLE of a rebuild fires the ON DELETE actions of the child tables"
+
+func checkTxOpenerRegistered(c *Ctx, rule string) {
+	p := c.Pkg(pSqlite)
+	pClient := modRoot + "/sql/sqlclient"
+	n := 0
+	c.AllFuncs(false, func(fi *FuncInfo) {
+		if fi.Pkg != p {
+			return
+		}
+		info := fi.Info()
+		ast.Inspect(fi.Decl.Body, func(m ast.Node) bool {
+			call, ok := m.(*ast.CallExpr)
+			if !ok || !funcIs(calleeOf(info, call), pClient, "", "Register") {
+				return true
+			}
+			n++
+			c.funcs[fi.Name] = true
+			name := "?"
+			if len(call.Args) > 0 {
+				if s, ok := stringConst(info, call.Args[0]); ok {
+					name = s
+				} else {
+					name = types.ExprString(call.Args[0])
+				}
+			}
+			ok2 := false
+			for _, a := range call.Args {
+				opt, ok := ast.Unparen(a).(*ast.CallExpr)
+				if !ok || !funcIs(calleeOf(info, opt), pClient, "", "RegisterTxOpener") || len(opt.Args) != 1 {
+					continue
+				}
+				if id, ok := ast.Unparen(opt.Args[0]).(*ast.Ident); ok {
+					if f, ok := info.ObjectOf(id).(*types.Func); ok && f.Pkg() == p.Types && f.Name() == "OpenTx" {
+						ok2 = true
+					}
+				}
+			}
+			c.Check(rule, "sqlite|Register("+name+") wires OpenTx", call.Pos(), ok2, "the registration of the SQLite driver under %q does not pass sqlclient.RegisterTxOpener(OpenTx): transactions on such URLs are opened with a plain BeginTx while foreign keys are enforced, so the planned PRAGMA foreign_keys = off is ignored and a table rebuild cascades into the child tables", name)
+			return true
+		})
+	})
+	if n < 2 {
+		c.Unresolved(rule, "sqlclient.Register calls in sql/sqlite (fewer than 2)")
 	}
 }
